@@ -444,7 +444,14 @@ void sm2_z256_modp_tri(sm2_z256_t r, const sm2_z256_t a)
 
 void sm2_z256_modp_neg(sm2_z256_t r, const sm2_z256_t a)
 {
+	/* all ones unless a == 0: -0 is 0, not p */
+	uint64_t nonzero = 0 - (1 - sm2_z256_is_zero(a));
+
 	(void)sm2_z256_sub(r, SM2_Z256_P, a);
+	r[0] &= nonzero;
+	r[1] &= nonzero;
+	r[2] &= nonzero;
+	r[3] &= nonzero;
 }
 
 void sm2_z256_modp_haf(sm2_z256_t r, const sm2_z256_t a)
@@ -843,7 +850,14 @@ void sm2_z256_modn_sub(sm2_z256_t r, const sm2_z256_t a, const sm2_z256_t b)
 
 void sm2_z256_modn_neg(sm2_z256_t r, const sm2_z256_t a)
 {
+	/* all ones unless a == 0: -0 is 0, not n */
+	uint64_t nonzero = 0 - (1 - sm2_z256_is_zero(a));
+
 	(void)sm2_z256_sub(r, SM2_Z256_N, a);
+	r[0] &= nonzero;
+	r[1] &= nonzero;
+	r[2] &= nonzero;
+	r[3] &= nonzero;
 }
 #endif
 
